@@ -10,9 +10,10 @@
 //   F<log>[/<dest>]:c<hex of the class list> classes( list)                  -> ok | E:<exception>
 //   S<ids>:<level><class>    Logging::log( id_t, msg)                        -> deliveries
 //   N<log>:<level><class>    Logging::log( name, msg)                        -> deliveries
-//   Q<ids>:<level>           detail::discard_by_level( id_t, level)          -> d0|d1|E:..
+//   Q<ids>:<level>           detail::discard_by_level( id_t, level)          -> q|E:.. (answer after ##)
 //   R<log>:<level>           detail::discard_by_level( name, level)
-//   T<ids>                   49 x S for every (level, class), 7 x Q for every level
+//   T<ids>                   49 x S for every (level, class), 7 x Q for every level:
+//                            '.' = consistent, 'X' = discarded although delivered, 'E' = exception
 //   V<log>                   49 x N, 7 x R
 // result: one token per operation; after "##": duplicate policy in effect and
 // the type of the cached level filter of every log (internal observables).
@@ -105,24 +106,33 @@ template<typename T> std::string discard( const T& spec, int level)
    } catch (const std::exception& e) { return exc_name( e); }
 }
 
-// run-length encoded table so that the result lines stay short
+// run-length encoded table so that the result lines stay short.  The answers of the
+// level pre-check are an internal observable (which level filter is consulted is not
+// fixed by the property); the property observable is whether an answer "discard" was
+// given for a level of which a message of this very table was delivered ('X').
+std::string g_raw;   // raw pre-check answers of the case, printed after "##"
+
 template<typename T> std::string table( const T& spec)
 {
    std::string r = "t:";
    std::string last; int n = 0;
+   bool delivered[7] = { false, false, false, false, false, false, false };
    auto flush = [&]() { if (n) { r += last + (n > 1 ? "*" + std::to_string( n) : "") + ","; } };
    for (int l = 0; l < 7; ++l)
       for (int c = 0; c < 7; ++c)
       {
          std::string s = send( spec, l, c);
+         if (s != "-" && s.compare( 0, 2, "E:") != 0) delivered[l] = true;
          if (s == last) ++n; else { flush(); last = s; n = 1; }
       }
    flush();
    r += "q:";
+   g_raw += " q=";
    for (int l = 0; l < 7; ++l)
    {
       const std::string d = discard( spec, l);
-      r += d == "d1" ? "1" : d == "d0" ? "0" : "E";
+      g_raw += d == "d1" ? "1" : d == "d0" ? "0" : "E";
+      r += d == "d1" ? (delivered[l] ? "X" : ".") : d == "d0" ? "." : "E";
    }
    return r;
 }
@@ -144,6 +154,7 @@ std::string run_case( const std::vector<std::string>& w)
 {
    Logging::reset();
    Filters::setDuplicatePolicy( DuplicatePolicy::ignore);
+   g_raw.clear();
    std::string prop;
    bool dead = false;     // a crash is reported by the sanitizer, nothing to do here
    for (auto& o : vf::split( w.size() > 1 ? w[1] : "-", ';'))
@@ -201,6 +212,7 @@ std::string run_case( const std::vector<std::string>& w)
          default: r = "?";
          }
       } catch (const std::exception& e) { r = exc_name( e); }
+      if (r == "d0" || r == "d1") { g_raw += " q=" + r.substr( 1); r = "q"; }
       prop += (prop.empty() ? "" : " ") + r;
    }
    // internal observables
@@ -210,7 +222,7 @@ std::string run_case( const std::vector<std::string>& w)
       : pp->policy() == DuplicatePolicy::exception ? "e" : "r";
    for (auto& ld : Logging::instance().mLogs)
       intl += std::string( " ") + ld.mName + "=" + type_name( ld.mpLog->mpLevelFilter);
-   return prop + " ## " + intl;
+   return prop + " ## " + intl + g_raw;
 }
 
 } // namespace
